@@ -158,7 +158,8 @@ def s_merge(tier):
                                            heading=h).map(lambda sec: {"a": strip(first), "b": strip(sec),
                                                                        "mode": t[1]}))
     return st.tuples(gg.lanelet_polylines(2, 6, 1.0, 15.0), st.booleans(), st.booleans()).flatmap(
-        lambda t: second(t[0]).map(lambda d: dict(d, link_succ=t[1], swap=t[2])))
+        lambda t: second(t[0]).map(lambda d: dict(d, link_succ=t[1], swap=t[2]))).flatmap(
+        lambda d: st.booleans().map(lambda b: dict(d, prequery=b)))
 
 
 def check_merge(r, ctx):
@@ -170,6 +171,12 @@ def check_merge(r, ctx):
         kw2["predecessor"] = [1]
     l1 = make_lanelet(a, 1, **kw1)
     l2 = make_lanelet(b, 2, **kw2)
+    if r.get("prequery"):
+        # both lanelets have been in ordinary use: their lazily computed geometry exists before the merge
+        for la in (l1, l2):
+            la.distance, la.inner_distance, la.polygon
+            la.interpolate_position(float(la.distance[-1]) / 2)
+        ctx.label("merged-after-use")
     merged = Lanelet.merge_lanelets(l2, l1) if r["swap"] else Lanelet.merge_lanelets(l1, l2)
     joined = r["mode"] == "joined"
     scale = 1 + max(abs(x) for p in a["center"] + b["center"] for x in p)
@@ -233,6 +240,8 @@ def s_routes(tier):
             "range": st.one_of(st.floats(0.5, 120.0), st.integers(1, 100).map(float)),
             "shape": st.sampled_from(["free", "chain", "cycle", "diamond"]),
             "range_mask": st.one_of(st.just(0), st.integers(1, 255)),
+            # lanelets with a right-angle bend: same centre-line length, shorter inner boundary
+            "bends": st.one_of(st.just([False] * n), st.lists(st.booleans(), min_size=n, max_size=n)),
         })
     return st.integers(2, 8).flatmap(graph)
 
@@ -266,10 +275,22 @@ def check_routes(r, ctx):
     for i in range(n):
         ln = r["lengths"][i]
         y = 10.0 * i
-        lanelets.append(Lanelet(np.array([[0.0, y + 1], [ln, y + 1]]), np.array([[0.0, y], [ln, y]]),
-                                np.array([[0.0, y - 1], [ln, y - 1]]), i + 1,
+        if r.get("bends", [False] * n)[i] and ln >= 4.0:
+            # L-shaped: two axis-aligned legs of ln/2 each, so the centre-line length is still exactly ln while the
+            # left (inner) boundary is 2 shorter and the right one 2 longer
+            # (the corner sits at the origin so that both leg lengths are exactly h in floating point)
+            h = ln / 2
+            left, centre, right = ([[-h, 1.0], [-1.0, 1.0], [-1.0, h]], [[-h, 0.0], [0.0, 0.0], [0.0, h]],
+                                   [[-h, -1.0], [1.0, -1.0], [1.0, h]])
+            ctx.label("bent-lanelet")
+        else:
+            left, centre, right = [[0.0, y + 1], [ln, y + 1]], [[0.0, y], [ln, y]], [[0.0, y - 1], [ln, y - 1]]
+        lanelets.append(Lanelet(np.array(left), np.array(centre), np.array(right), i + 1,
                                 predecessor=[p + 1 for p in pred[i]], successor=[s + 1 for s in succ[i]]))
     net = LaneletNetwork.create_from_lanelet_list(lanelets, cleanup_ids=False)
+    # the "< range" rule is decided exactly when the library's lanelet lengths are exactly the recipe's; otherwise
+    # (rounding inside the length computation) an accumulated length within 1e-9 of the range is a don't-care
+    exact = all(float(la.distance[-1]) == r["lengths"][la.lanelet_id - 1] for la in lanelets)
     start = r["start"]
     rng = r["range"]
     if r.get("range_mask"):
@@ -305,6 +326,9 @@ def check_routes(r, ctx):
             acc = 0.0
             for k in range(len(ids) - 1):
                 acc += r["lengths"][ids[k]]
+                if not exact and abs(acc - rng) <= 1e-9 * (1 + rng):
+                    ctx.band_case("range-boundary-inexact-lengths")
+                    break
                 if not acc < rng:  # exact: lanelets are axis-aligned, lengths and sums are computed identically
                     raise Violation("route-%s-extended-beyond-range" % direction,
                                     "%r extended after accumulated length %r >= range %r" % (p, acc, rng))
